@@ -31,6 +31,9 @@ def norm(e, clone_transparent=False):
         # `p.cast::<U>()` is `p as *const U` (a pointer cast is already transparent in canonical forms)
         if e[1] in ('core::ptr::const_ptr::cast', 'core::ptr::mut_ptr::cast', 'core::ptr::const_ptr::cast_mut', 'core::ptr::mut_ptr::cast_const') and len(args) == 1:
             return args[0]
+        # std::cmp::min(a, b) is a.min(b)
+        if e[1] in ('core::cmp::min', 'core::cmp::max', 'std::cmp::min', 'std::cmp::max') and len(args) == 2:
+            return ('call', 'core::cmp::Ord::' + e[1].rsplit('::', 1)[-1], args)
         # cond.then_some(v) is `if cond { Some(v) } else { None }` (v is evaluated either way; it has no effects in a recovered expression)
         if e[1].endswith('bool::then_some') and len(args) == 2:
             return ('ite', args[0], ('agg', ('adt', 'core::option::Option', 'Some', ('0',)), (args[1],)), ('agg', ('adt', 'core::option::Option', 'None', ()), ()))
